@@ -162,14 +162,27 @@ impl Runner for TalkRunner {
                 out.push(format!("!OP trespond {} {}", i, payload));
                 out.push(format!("res={} {}", rs, if items.is_empty() { "-".into() } else { items.join(" ") }));
             }
-            ["tdrop", idx] => {
+            ["tdrop", idx, rest @ ..] => {
+                let unwinding = rest.first() == Some(&"unwinding");
                 let Some(i) = idx.strip_prefix('#').and_then(|s| s.parse::<usize>().ok()) else { return noop(out) };
                 if i == 0 || i > self.r.talks.len() || self.r.talks[i - 1].is_none() {
                     return noop(out);
                 }
                 let tr = self.r.talks[i - 1].take().unwrap();
                 let before = self.meta[i - 1].2;
-                let res = no_panic(std::panic::AssertUnwindSafe(move || drop(tr)));
+                let res = if unwinding {
+                    // the application task that holds the request panics: the object is dropped while
+                    // the stack unwinds.  A second panic inside the destructor would abort the process.
+                    stats.bump("t.dropped-while-unwinding");
+                    let r = std::panic::catch_unwind(std::panic::AssertUnwindSafe(move || {
+                        let _held = tr;
+                        std::panic::resume_unwind(Box::new("application task failed"));
+                    }));
+                    debug_assert!(r.is_err());
+                    Some(())
+                } else {
+                    no_panic(std::panic::AssertUnwindSafe(move || drop(tr)))
+                };
                 let items = self.drain(out);
                 let after = self.meta[i - 1].2;
                 if res.is_none() {
@@ -237,15 +250,17 @@ pub fn gen_case(rng: &mut Rng, tier: &str, _profile: &str, stats: &mut Stats) ->
             ops.push(format!("tdeliver k{} {} {} {} {}", peer, a, rid, proto, payload));
             delivered += 1;
         } else if c < 65 {
-            let n = match rng.below(4) {
-                0 => 0,
-                1 => 1,
+            let n = match rng.below(8) {
+                0 | 1 => 0,
+                2 | 3 => 1,
+                // around the largest payload that still fits one datagram (1177 bytes for an 8-byte id)
+                4 => [1100, 1160, 1165, 1166, 1170, 1176, 1177][rng.below(7) as usize],
                 _ => rng.below(40) as usize,
             };
             let payload = hx(&rng.bytes(n));
             ops.push(format!("trespond #{} {}", rng.range(1, delivered), payload));
         } else if c < 92 {
-            ops.push(format!("tdrop #{}", rng.range(1, delivered)));
+            ops.push(format!("tdrop #{}{}", rng.range(1, delivered), if rng.chance(1, 4) { " unwinding" } else { "" }));
         } else if !shut {
             ops.push("tshutdown".into());
             shut = true;
@@ -259,7 +274,7 @@ pub fn gen_case(rng: &mut Rng, tier: &str, _profile: &str, stats: &mut Stats) ->
         if rng.chance(1, 2) {
             ops.push(format!("trespond #{} {}", i, hx(&rng.bytes(3))));
         } else {
-            ops.push(format!("tdrop #{}", i));
+            ops.push(format!("tdrop #{}{}", i, if rng.chance(1, 4) { " unwinding" } else { "" }));
         }
     }
     ops
